@@ -1,7 +1,7 @@
 #!/bin/bash
 # Runs the repository's own test suite with the verification guard OFF (plain cargo test, no RUSTFLAGS).
 # Expected: 99 passed, 1 failed (tests::client::test_url_parser needs DNS; it is in BASELINE.json's always_fail).
-cd /repo || exit 2
+cd "${HV_REPO:-/repo}" || exit 2
 unset RUSTFLAGS
 out=$(CARGO_NET_OFFLINE=true cargo test --workspace --no-fail-fast --offline 2>&1)
 echo "$out" | grep -E "^test .* (FAILED|failed)$|^test result"
